@@ -193,6 +193,17 @@ SNIPPETS = {
     "define_second_part": '<i tal:define="ok 1; 2x 3">a</i>',
     "define_after_escape": '<i tal:define="ok \'a;;b\'; 2x 3">a</i>',
     "repeat_no_expr": '<i tal:repeat="x">a</i>',
+    "repeat_two_parts": '<i tal:repeat="x (1,); y (2,)">a</i>',
+    "repeat_tuple_unclosed": '<i tal:repeat="(a, b ((1, 2),)">a</i>',
+    "code_block_syntax": '<?python x = ( ?>',
+    "code_block_indent": '<?python\n  x = 1\n y = 2 ?>',
+    "fill_slot_empty": '<div metal:use-macro="m"><i metal:fill-slot="">a</i>'
+                       '</div>',
+    "tal_element_bad_attr": '<tal:block bogus="1">a</tal:block>',
+    "name_with_translate": '<i i18n:translate="" i18n:name="x">a</i>',
+    "empty_condition": '<i tal:condition="">a</i>',
+    "empty_target": '<i i18n:target="">a</i>',
+    "define_tuple_nested": '<i tal:define="((a, b), c) ((1, 2), 3)">a</i>',
     "unknown_tal": '<i tal:bogus="1">a</i>',
     "unknown_metal": '<i metal:bogus="1">a</i>',
     "unknown_i18n": '<i i18n:bogus="1">a</i>',
